@@ -20,6 +20,7 @@ mod c30;
 mod c31;
 mod c34;
 mod c35;
+mod wf;
 
 fn main() {
     let args: Vec<String> = std::env::args().skip(1).collect();
@@ -74,6 +75,8 @@ fn main() {
         "c31-drive" => c31::drive(rest),
         "c34-replay" => c34::replay(rest),
         "c35-run" => c35::run(rest),
+        "wf-run" => wf::run(rest),
+        "wf-fresh" => wf::fresh(rest),
         _ => {
             eprintln!("unknown command {cmd}");
             std::process::exit(2);
